@@ -773,6 +773,10 @@ func monC18(c *child.Ctx, replay json.RawMessage) {
 		k := queueCase{Kind: "long", Cap: capN, Adds: longAdds}
 		if capN > 20 {
 			k.Adds = 6*capN + c.Pick(2000, 200000) // every snapshot is compared: keep the large capacities affordable
+		} else if capN > 8 && c.Thorough() {
+			// ten million snapshots of 16 to 20 items under the race detector took a
+			// child past its watchdog in the last thorough run (inconclusive): two million
+			k.Adds = longAdds / 5
 		}
 		cj := c.BeginV(k)
 		execQueueLong(c, k, cj)
@@ -811,7 +815,7 @@ func monC18(c *child.Ctx, replay json.RawMessage) {
 		}
 	}
 	{
-		k := queueCase{Kind: "firstadds", Cap: []int{3, 4, 8, 20}[r.Intn(4)], Adders: 2 + c.Batch%2, Adds: c.Pick(6000, 60000)}
+		k := queueCase{Kind: "firstadds", Cap: []int{3, 4, 8, 20}[r.Intn(4)], Adders: 2 + c.Batch%2, Adds: c.Pick(6000, 24000)}
 		cj := c.BeginV(k)
 		execQueueFirstAdds(c, k, cj)
 		c.Eval(ref.Hash64(cj), true)
@@ -850,7 +854,7 @@ func monC18(c *child.Ctx, replay json.RawMessage) {
 		c.Eval(ref.Hash64(cj, []byte{byte(i)}), true)
 	}
 	// (4) concurrent histories
-	n := c.Share(c.Pick(6000, 200000))
+	n := c.Share(c.Pick(6000, 120000))
 	for i := 0; i < n; i++ {
 		k := queueCase{Kind: "conc", Cap: []int{1, 2, 3, 8}[r.Intn(4)], Adders: r.Range(1, 3), Readers: r.Range(1, 3), OpsEach: r.Range(10, 30),
 			Procs: []int{2, 16, 4}[r.Intn(3)], Seed: r.Uint64() >> 1}
